@@ -37,10 +37,11 @@ type Params struct {
 	KS       []int   // key size of message i, -1 = nil key
 	Parts    []int32 // partition of message i (manual partitioner)
 	NParts   int
-	Policy   string          // drain | input
-	CloseAny bool            // AsyncClose offered at every decision point after the first submit
-	Gates    map[string]bool // gate sites that are decision points (needed with faults: the retry path has merge points)
-	Faults   []string        // produce faults the broker may answer with (default none: C16 quantifies over sizes and latency)
+	Policy   string                  // drain | input
+	CloseAny bool                    // AsyncClose offered at every decision point after the first submit
+	Gates    map[string]bool         // gate sites that are decision points (needed with faults: the retry path has merge points)
+	Codec    sarama.CompressionCodec // codec=gzip|snappy|lz4 (default none): the size limits are stated on key+value bytes whatever the codec
+	Faults   []string                // produce faults the broker may answer with (default none: C16 quantifies over sizes and latency)
 }
 
 func atoi(v url.Values, k string, def int) int {
@@ -77,6 +78,14 @@ func Parse(v url.Values) (*Params, error) {
 	}
 	if p.Policy == "" {
 		p.Policy = "drain"
+	}
+	switch v.Get("codec") {
+	case "gzip":
+		p.Codec = sarama.CompressionGZIP
+	case "snappy":
+		p.Codec = sarama.CompressionSnappy
+	case "lz4":
+		p.Codec = sarama.CompressionLZ4
 	}
 	ver := v.Get("ver")
 	if ver == "" {
@@ -296,6 +305,7 @@ func run(c *gx.Ctl, p *Params) *gx.Outcome {
 	conf.Producer.Retry.Max = 1
 	conf.Producer.Partitioner = sarama.NewManualPartitioner
 	conf.Producer.MaxMessageBytes = p.MMB
+	conf.Producer.Compression = p.Codec
 	conf.Producer.Flush.Messages = p.FM
 	conf.Producer.Flush.Bytes = p.FB
 	conf.Producer.Flush.Frequency = p.FF
